@@ -329,6 +329,26 @@ def replay_eval(exe, failures):
     return {"status": "not_reproduced" if ran else "unavailable", "summary": "native results agree" if ran else "no scenario could be made concrete", "attempts": tried}
 
 
+def replay_details(exe, failures):
+    tried = []
+    for f in failures:
+        sc = f.get("scenario")
+        if not sc or sc.get("kind") != "details":
+            continue
+        out, why = run(exe, "details", [sc["request"]])
+        if out is None:
+            tried.append({"label": f["label"], "skipped": why})
+            continue
+        got = out[0]
+        rec = {"label": f["label"], "request": sc["request"], "expected": sc["expected"], "native": got}
+        tried.append(rec)
+        if "panic" in got or got.get("filtered") != sc["expected"]:
+            rec["reproduced"] = True
+            return {"status": "reproduced", "summary": f"filtering {sc['request']} left {got.get('filtered')}, the property demands {sc['expected']}", "attempts": tried}
+    ran = any("native" in t for t in tried)
+    return {"status": "not_reproduced" if ran else "unavailable", "summary": "native results agree" if ran else "no scenario could be made concrete", "attempts": tried}
+
+
 def replay_value(exe, failures):
     tried = []
     for f in failures:
@@ -538,6 +558,8 @@ def main():
             r = r2 if r2["status"] == "reproduced" else r
     elif any((f.get("scenario") or {}).get("kind") == "vm" for f in fails):
         r = replay_vm(exe, fails)
+    elif any((f.get("scenario") or {}).get("kind") == "details" for f in fails):
+        r = replay_details(exe, fails)
     elif any((f.get("scenario") or {}).get("kind") == "eval" for f in fails):
         r = replay_eval(exe, fails)
     elif any((f.get("scenario") or {}).get("kind") == "literal" for f in fails):
